@@ -16,6 +16,7 @@ import Driver.PathCase
 import Driver.AliasCase
 import Driver.TimeCase
 import Driver.TypedCase
+import Driver.JlCase
 
 open Jl
 
@@ -31,6 +32,9 @@ def runLine (line : String) : Driver.Result :=
     Driver.StreamCase.runStream prop ti to proc reader writer ext impl
   | ["path", _, row, op, path, val, ext, impl] => Driver.PathCase.runPath row op path val ext impl
   | ["probe", _, what, impl] => Driver.PathCase.runProbe what impl
+  | ["jl", _, defs, stdin, ext, y, i, o, l] => Driver.JlCase.runCase defs stdin ext y i o l
+  | ["jlbad", _, what, run] => Driver.JlCase.runBad what run
+  | ["jlkeep", _, what, a, b] => Driver.JlCase.runKeep what a b
   | ["typed", _, f, ty, src, ext, w, b1, b2] => Driver.TypedCase.runTyped f ty src ext w b1 b2
   | ["twice", _, zone, ti, to, line, ext, first, second] => Driver.TypedCase.runTwice zone ti to line ext first second
   | ["timert", _, zone, src, ext, s1, s2, s3, s4] => Driver.TimeCase.runCase zone src ext s1 s2 s3 s4
